@@ -1,6 +1,7 @@
 import SieveModel.Model.Lexer
 import SieveModel.Model.Machine
 import SieveModel.Lemmas.Comments
+import SieveModel.Lemmas.Readback
 /-!
 # C11 — A filter set survives being saved and loaded back
 
@@ -11,7 +12,14 @@ import SieveModel.Lemmas.Comments
   result carrying exactly the pending comments, after which the pending list is empty.  Hence the name
   and description markers the factory writes in front of a filter are delivered with that filter's
   command and with no other.
-The construction and loading logic of `factory.py` is decided by the render → parse → reload oracle.
+* `markers_give_back_name_and_description` / `name_marker_gives_back_the_name` (loader model `Readback.nameDescL`, the
+  `for comment in f.hash_comments` loop of `from_parser_result`): for non-empty prefixes neither of which begins a line
+  written with the other, and a name / description in which the prefixes do not occur, the two marker comments give
+  back exactly the name and the description (`(pre + s).replace(pre, "") = s.replace(pre, "")` for every `s`);
+  `text_without_the_first_prefix_byte_is_safe`: a text without the prefix's first byte (no `#`) contains no occurrence.
+The loader and the renderer are tied to the code by the `factory-roundtrip` correspondence (build → render → parse → load
+→ read back, real code against the composed Lean models); the rest of the construction and loading logic of `factory.py`
+is decided by the render → parse → reload oracle.
 -/
 namespace C11
 /-- a hash comment token runs to the end of its line and never beyond: the name / description
@@ -36,4 +44,26 @@ theorem marker_comments_reach_the_next_top_level_command (T : Table) (s s' : PSt
       ((s'.comments = s.comments ∧ s'.result = s.result) ∨
        (∃ n, s'.result = s.result ++ [n] ∧ Node.comments n = s.comments ∧ s'.comments = []))) :=
   Comments.deliver_comments T s tok s' h
+/-- the marker comments give back name and description -/
+theorem markers_give_back_name_and_description (npre dpre name desc dflt : Bytes) (hn : npre ≠ []) (hd : dpre ≠ [])
+    (h1 : Readback.removeAll npre name = name) (h2 : Readback.removeAll dpre desc = desc)
+    (h3 : B.startsWith (npre ++ name) dpre = false) (h4 : B.startsWith (dpre ++ desc) npre = false) :
+    Readback.nameDescL npre dpre [npre ++ name, dpre ++ desc] (dflt, []) = (name, desc) :=
+  Readback.markers_give_back_name_and_description npre dpre name desc dflt hn hd h1 h2 h3 h4
+
+theorem name_marker_gives_back_the_name (npre dpre name dflt : Bytes) (hn : npre ≠ [])
+    (h1 : Readback.removeAll npre name = name) (h3 : B.startsWith (npre ++ name) dpre = false) :
+    Readback.nameDescL npre dpre [npre ++ name] (dflt, []) = (name, []) :=
+  Readback.name_marker_gives_back_the_name npre dpre name dflt hn h1 h3
+
+theorem text_without_the_first_prefix_byte_is_safe (p : UInt8) (ps s : Bytes) (h : ∀ c ∈ s, c ≠ p) :
+    Readback.removeAll (p :: ps) s = s :=
+  Readback.removeAll_of_absent_head p ps s h
+
+/-- non-vacuity with the default prefixes; and a name that contains the prefix is damaged (why the quantifier excludes it) -/
+example : Readback.nameDescL (sb "# Filter: ") (sb "# Description: ") [sb "# Filter: spam rule", sb "# Description: drop it"] (sb "Unnamed rule 1", [])
+    = (sb "spam rule", sb "drop it") := by decide
+example : Readback.nameDescL (sb "# Filter: ") (sb "# Description: ") [sb "# Filter: a # Filter: b"] (sb "Unnamed rule 1", [])
+    = (sb "a b", []) := by decide
+
 end C11
